@@ -446,8 +446,8 @@ proof fn lemma_compose(graph: Seq<Vec<usize>>, ret: Seq<usize>, data_len: int)
         'outlined (T3): `(0..n).collect()` is the sequence 0,1,..,n-1',
     ],
     undecided=[
-        'construction of the reference graph `dag` in topsort() (get_dependencies*, get_index): iterator/closure code; '
-        'the proved statement is relative to the computed graph',
+        'the glue in topsort() that turns collected names into graph indices (HashMap::from_iter, get_index, iterator chains); the '
+        'collector itself is under contract in unit deps',
         'that each backend writes one definition per element of the reordered slice (text emission)',
     ],
 )
@@ -579,8 +579,9 @@ fn main() {
 
 
 def native_source(raw):
-    """the un-annotated CURRENT text of the two functions, compiled natively, + an enumerating driver.
-    Used only to furnish a replayable input after an obligation failed; it never decides."""
+    """bound: the un-annotated CURRENT text of toposort_impl and sort_by_indices compiled natively: every graph with n <= 4 nodes
+    (all adjacency subsets, self loops included, both listing orders), every permutation with n <= 6; a call that does not
+    return within 3 s counts as a hang."""
     return ('#![allow(dead_code, unused)]\n' + raw('toposort_impl') + '\n' + raw('sort_by_indices').replace('pub(crate) ', '', 1)
             + '\n' + NATIVE_MAIN)
 
